@@ -62,8 +62,25 @@ def main(argv=None):
             zone = ["UTC", "America/Los_Angeles", "Australia/Lord_Howe", "Asia/Kathmandu"][args.shard % 4]
             os.environ["TZ"] = zone
             time.tzset()
+        # Process-wide settings an application may have made, rotated over the workers: warnings raised as errors
+        # (python -W error) and DEBUG logging switched on for every logger (records go to a null handler).
+        settings = []
+        if args.shard % 4 == 1:
+            import warnings
+
+            warnings.simplefilter("error")
+            settings.append("warnings_as_errors")
+        if args.shard % 4 == 2:
+            import logging
+
+            logging.getLogger().addHandler(logging.NullHandler())
+            logging.getLogger().setLevel(logging.DEBUG)
+            logging.getLogger("tinyflux").setLevel(logging.DEBUG)
+            settings.append("debug_logging")
         res = core.Result(prop, args.tier, seed)
         res.shard, res.nshards = args.shard, args.nshards
+        for st in settings:
+            res.count(f"worker_setting.{st}")
         try:
             mod.run(res, args.tier, seed, args.shard, args.nshards)
         except Exception:  # harness failure is never a verdict
